@@ -544,7 +544,7 @@ def _lbfgsb_cases(tier, seed):
         for d in _members(tier, seed):
             for R in (1, 2):
                 for mask in (None, "hole"):
-                    for via in ("solve", "gcp"):
+                    for via in ("solve", "gcp") + (("gcp_np",) if mask else ()):  # gcp_np: the mask as a numpy array
                         out.append({"check": "lbfgsb", "loss": loss, "data": d, "rank": R, "mask": mask, "via": via,
                                     "seed": seed,
                                     "maxiter": [0, 1, 2, 3, 5, 10, 40, 200] if th else [0, 1, 2, 5, 40]})
@@ -582,6 +582,9 @@ PROBLEMS = {
     "P4": {"data": 0, "loss": "GAUSSIAN", "rank": 1, "salt": 2},
     "P5": {"data": 3, "loss": "POISSON", "rank": 2, "salt": 4, "sparse": True},
     "P6": {"data": 6, "loss": "GAUSSIAN", "rank": 2, "salt": 5},   # order 4: another NUMBER of factor matrices
+    # same shape as P1 / P2, sparse storage, two different non-zero patterns (solver-built default sampler)
+    "P7": {"data": 0, "loss": "GAUSSIAN", "rank": 2, "salt": 6, "sparse": True},
+    "P8": {"data": 5, "loss": "GAUSSIAN", "rank": 2, "salt": 7, "sparse": True},
 }
 REUSE_CFG = {
     "calm": {"rate": 1e-2, "decay": 0.1, "max_fails": 1, "max_iters": 3, "epoch_iters": 2, "maxiter": 3},
@@ -605,6 +608,14 @@ def _reuse_cases(tier, seed):
                     for mode in modes:
                         out.append({"check": "reuse", "opt": opt, "cfg": cfg, "mode": mode, "word": list(word),
                                     "seed": seed})
+    # no sampler argument: the solver builds its default sampler from the data of *this* solve; problems of one
+    # shape in dense and two sparse forms, so that anything kept from an earlier solve's data would show
+    for L in (1, 2, 3):
+        for word in itertools.product(["P1", "P7", "P8"], repeat=L):
+            for opt in ("SGD", "Adam", "Adagrad"):
+                for cfg in cfgs:
+                    out.append({"check": "reuse", "opt": opt, "cfg": cfg, "mode": "default", "word": list(word),
+                                "seed": seed})
     return out
 
 
@@ -1321,7 +1332,8 @@ def _one_lbfgsb(c, ctx, ttb):
             Minit = K0
         else:
             M, Minit, info = ttb.gcp_opt(data, c["rank"], Objectives[loss], opt, init=K0,
-                                         mask=None if W is None else ttb.tensor(W.copy()), printitn=0)
+                                         mask=None if W is None else (W.copy() if via == "gcp_np" else ttb.tensor(W.copy())),
+                                         printitn=0)
     except CaseTimeout:
         raise
     except Exception as e:  # noqa: BLE001
@@ -1401,7 +1413,10 @@ def _reuse_solve(opt, c, pname, pos, ttb):
                "final_f": float(info["final_f"]), "nit": int(info["nit"]), "funcalls": int(info["funcalls"]),
                "warnflag": int(info["warnflag"]), "grad": np.array(info["grad"])}
         return obs, info
-    if c["mode"] == "seeded":
+    if c["mode"] == "default":
+        np.random.seed(1000 + 17 * pos + c.get("seed", 0))
+        smp = None
+    elif c["mode"] == "seeded":
         np.random.seed(1000 + 17 * pos + c.get("seed", 0))
         n = prod(shape)
         smp = GCPSampler(data, function_samples=n, gradient_samples=max(2, n // 2))
